@@ -193,6 +193,42 @@ def run(ctx, use_model=True):
                             fails.append(Failure("corr", None, "fault injection: serialize(path) no longer writes through os.fdopen/shutil.move as "
                                                  "modelled; no fault point can be exercised", {"name": name, "format": fmt}))
                             return fails
+                        if not present:
+                            # history: the same document saved to the same name again after somebody else has replaced (or
+                            # removed) the file: every call writes the complete serialisation
+                            for other in (b"SOMEBODY ELSE WROTE THIS", None):
+                                for d_ in (workdir, tmpdir):
+                                    shutil.rmtree(d_, ignore_errors=True)
+                                    os.makedirs(d_)
+                                os.makedirs(os.path.join(workdir, "sub", "dir"), exist_ok=True)
+                                cwd = os.getcwd()
+                                real_tempdir = tempfile.tempdir
+                                exc2 = None
+                                try:
+                                    os.chdir(workdir)
+                                    tempfile.tempdir = tmpdir
+                                    try:
+                                        doc.serialize(name, format=fmt)
+                                        if other is None:
+                                            os.remove(name)
+                                        else:
+                                            open(name, "wb").write(other)
+                                        doc.serialize(name, format=fmt)
+                                    except Exception as e:  # noqa
+                                        exc2 = e
+                                finally:
+                                    tempfile.tempdir = real_tempdir
+                                    os.chdir(cwd)
+                                got2 = snapshot(workdir).get(os.path.normpath(name))
+                                ctx.evaluations += 1
+                                ctx.count("saved-again-after-replacement")
+                                case2 = {"name": name, "format": fmt, "history": "save, %s, save again" % ("file removed" if other is None else "file overwritten by someone else")}
+                                ctx.nontrivial(case2)
+                                if exc2 is not None:
+                                    fails.append(Failure("oracle", None, "saving again raised %r" % (exc2,), case2))
+                                elif got2 is None or got2 == other or (fmt != "rdf" and got2 != expected_bytes):
+                                    fails.append(Failure("oracle", None, "after the second serialize() the named file does not hold the complete "
+                                                         "serialisation (%s)" % ("absent" if got2 is None else "%d bytes, starts %r" % (len(got2), got2[:24])), case2))
                         # operating-system level: the file system takes only the first `limit` bytes
                         size = len(expected_bytes)
                         limits = sorted({0, 1, size // 3, size // 2, size - 1}) if ctx.tier == "thorough" else sorted({0, size // 2})
@@ -289,6 +325,29 @@ def replay(ctx, case):
     fails = []
     try:
         workdir, tmpdir = os.path.join(base, "work"), os.path.join(base, "tmp")
+        if "history" in case:
+            os.makedirs(os.path.join(workdir, "sub", "dir"), exist_ok=True)
+            os.makedirs(tmpdir, exist_ok=True)
+            cwd = os.getcwd()
+            real_tempdir = tempfile.tempdir
+            buf = io.BytesIO()
+            doc.serialize(buf, format=case["format"])
+            try:
+                os.chdir(workdir)
+                tempfile.tempdir = tmpdir
+                doc.serialize(case["name"], format=case["format"])
+                if "removed" in case["history"]:
+                    os.remove(case["name"])
+                else:
+                    open(case["name"], "wb").write(b"SOMEBODY ELSE WROTE THIS")
+                doc.serialize(case["name"], format=case["format"])
+            finally:
+                tempfile.tempdir = real_tempdir
+                os.chdir(cwd)
+            got2 = snapshot(workdir).get(os.path.normpath(case["name"]))
+            if got2 is None or got2 == b"SOMEBODY ELSE WROTE THIS" or (case["format"] != "rdf" and got2 != buf.getvalue()):
+                fails.append(Failure("oracle", case.get("signature"), "the second serialize() did not write the file", case))
+            return fails
         if "fsize_limit" in case:
             # the document of the original run is not kept: take room for half of this document's bytes
             buf = io.BytesIO()
